@@ -170,9 +170,21 @@ def t1c(F, res):
                 from .c08 import split_tuple
                 comps = split_tuple(st[1:-1])
                 tflows, _ = e3.self_field_flows(f, "tuple")
+                def _via_adaptor(fl):
+                    # the component is put into a sequence that an adaptor walks with a closure (or the method itself as a
+                    # function value) calling the method on each element: `[&self.0, &self.1].iter().all(|x| x.is_constant())`
+                    for t_ in (fl or {}).get("terms", ()):
+                        for fr in t_.get("fnrefs") or ():
+                            h = F.fns.get(fr)
+                            if h is not None and any(is_trait_call(t2, tr, m) for b2 in with_closures(F, h) for _, t2 in mir.calls(b2)):
+                                return True
+                            if fr == "%s::%s" % (tr, m) or fr.endswith(" as %s>::%s" % (tr, m)):
+                                return True
+                    return False
                 missing = [i for i in range(len(comps))
                            if not any(c.endswith("::" + m) for c in (tflows.get(("", str(i))) or {}).get("calls", ()))
-                           and not (tflows.get(("", str(i))) or {}).get("closure")]
+                           and not (tflows.get(("", str(i))) or {}).get("closure")
+                           and not _via_adaptor(tflows.get(("", str(i))))]
                 if missing:
                     res.add([finding("T1c", key, w, "the impl of %s::%s on the tuple %s never calls %s on component %s: children in that position are invisible to the traversal" % (
                         tr.split("::")[-1], m, st, m, ", ".join(".%d" % i for i in missing)))])
